@@ -314,11 +314,25 @@ namespace pika {
 
         stop_source& operator=(stop_source const& rhs) noexcept
         {
-            state_ = rhs.state_;
-            if (state_) state_->add_source_count();
+            if (state_ != rhs.state_)
+            {
+                // give up the source reference on the state owned so far
+                if (state_) state_->remove_source_count();
+                state_ = rhs.state_;
+                if (state_) state_->add_source_count();
+            }
             return *this;
         }
-        stop_source& operator=(stop_source&&) noexcept = default;
+        stop_source& operator=(stop_source&& rhs) noexcept
+        {
+            if (this != &rhs)
+            {
+                // give up the source reference on the state owned so far
+                if (state_) state_->remove_source_count();
+                state_ = std::move(rhs.state_);
+            }
+            return *this;
+        }
 
         // Effects: Releases ownership of the stop state, if any.
         ~stop_source()
